@@ -76,6 +76,7 @@ class Contract:
         self.captures = []    # (ghost name, local name, expr, ctype)
         self.assert_attrs = {}
         self.captures_before = []
+        self.captures_end = []
         self.alt_harness = {}
         self.uses = []        # other contract files whose ghost declarations this one refers to
         self.markers = []     # (line, id)
@@ -129,6 +130,11 @@ class Contract:
                     for item in re.findall(r'(?:(\w+)=([^@\s]+)@)?(\w+):([\w ]+?)(?=\s+\w+[:=]|\s*$)', rest):
                         gname, expr, local, ctype = item
                         self.captures.append((gname or 'cap_' + local, local, expr or local, ctype.strip()))
+                    cur = None
+                elif kind == 'capture-end':
+                    # R21c: ghost assignments placed at the very end of the function body (inside its scope, so locals are visible)
+                    for gname, expr, ctype in re.findall(r'(\w+)=(\S+?):([\w ]+?)(?=\s+\w+=|\s*$)', rest.strip()):
+                        self.captures_end.append((gname, expr, ctype.strip()))
                     cur = None
                 elif kind == 'capture-before':
                     # R21b: ghost assignments placed immediately before the first statement that starts with the anchor text
@@ -508,12 +514,17 @@ def splice_captures(body, contract, report):
         ins = m.start() + len(m.group(1))
         body = body[:ins] + '{ ' + ' '.join(stmts) + ' } ' + body[ins:]
         report.hit('R21b.ghost_capture_before', len(stmts))
+    if contract.captures_end:
+        end = body.rstrip().rfind('}')
+        body = body[:end] + '{ ' + ' '.join('%s = %s;' % (g, e) for g, e, t in contract.captures_end) + ' } ' + body[end:]
+        report.hit('R21c.ghost_capture_at_end', len(contract.captures_end))
     return body
 
 
 def capture_decls(contract):
     return '\n'.join(['%s %s;' % (ctype, gname) for gname, local, expr, ctype in contract.captures] +
-                     ['%s %s;' % (ctype, gname) for anchor, gname, expr, ctype in contract.captures_before])
+                     ['%s %s;' % (ctype, gname) for anchor, gname, expr, ctype in contract.captures_before] +
+                     ['%s %s;' % (ctype, gname) for gname, expr, ctype in contract.captures_end])
 
 
 def splice_loops(body, contract):
